@@ -8,6 +8,7 @@
    in it: `Reach lock_graph ship_roots`, `In s effect_sites`.  That no third-party crate misbehaves at run time is
    observed (strace), never proved. *)
 Require Import Base EffectsBase Effects Tables_effects EffectsProofs EffectsChecked EffectsSave EffectsSaveProofs.
+Require Import EffectsLinked EffectsLinkedProofs EffectsLinkedChecked EffectsConfig EffectsConfigProofs.
 From Coq Require Import String Ascii.
 Open Scope string_scope.
 Open Scope list_scope.
@@ -309,3 +310,189 @@ Example C10_save_plan_examples :
   save_plan (join_comps (b "/s/fd") (b "/home/u/draft.md%")) = (b "/home/u/draft.md%.tmp", b "/home/u/draft.md%.tmp", b "/home/u/draft.md%") /\
   save_plan (join_comps (b "/s/fd") (b "../../x%")) = (b "/x%.tmp", b "/x%.tmp", b "/x%").
 Proof. exact save_plan_examples. Qed.
+
+(* ---------------------------------------------------------------------------------------------------------------
+   The dependency part over the graph CARGO resolves (deepening): `linked_graph` is what
+   `cargo metadata --offline --locked --filter-platform x86_64-unknown-linux-gnu --filter-platform wasm32-unknown-unknown`
+   answers for /repo now (features resolved, other platforms' target-specific dependencies absent, dev edges dropped):
+   the crates that can actually be linked into harper-ls / harper-cli / harper-wasm.  The allow-lists are smaller than
+   for lock_graph: tokio, mio, socket2, tokio-util, libc, url  /  open, autocfg, version_check, cc. *)
+Theorem C10_no_client_crate_linked : forall c, Reach linked_graph ship_roots c ->
+  In c workspace_members \/
+  exists cl, class_of crate_class c = Some cl /\ cl <> CNetClient /\
+             (cl = CNetRuntime -> In (fst c) ["tokio"; "mio"; "socket2"; "tokio-util"; "libc"; "url"]) /\
+             (cl = CProcess -> In (fst c) ["open"; "autocfg"; "version_check"; "cc"]).
+Proof. exact no_client_crate_linked. Qed.
+Check C10_no_client_crate_linked : forall c, Reach linked_graph ship_roots c ->
+  In c workspace_members \/
+  exists cl, class_of crate_class c = Some cl /\ cl <> CNetClient /\
+             (cl = CNetRuntime -> In (fst c) ["tokio"; "mio"; "socket2"; "tokio-util"; "libc"; "url"]) /\
+             (cl = CProcess -> In (fst c) ["open"; "autocfg"; "version_check"; "cc"]).
+Print Assumptions C10_no_client_crate_linked.
+
+Theorem C10_linked_reachable_exact : forall c, Reach linked_graph ship_roots c <-> In c (reach_set linked_graph ship_roots).
+Proof. exact linked_reachable_exact. Qed.
+Check C10_linked_reachable_exact : forall c, Reach linked_graph ship_roots c <-> In c (reach_set linked_graph ship_roots).
+Print Assumptions C10_linked_reachable_exact.
+
+(* cargo's graph only ever drops edges of the lock-file graph: everything linked is covered by C10_no_client_crate too *)
+Theorem C10_linked_within_lock : forall c, Reach linked_graph ship_roots c -> Reach lock_graph ship_roots c.
+Proof. exact linked_within_lock. Qed.
+Check C10_linked_within_lock : forall c, Reach linked_graph ship_roots c -> Reach lock_graph ship_roots c.
+Print Assumptions C10_linked_within_lock.
+
+(* for ANY graph: the checker with given allow-lists is sound, and a reachable net-capable crate outside the list breaks it *)
+Theorem C10_linked_checker_sound : forall nets procs g t members roots,
+  check_crates_in nets procs g t members roots = true ->
+  forall c, Reach g roots c -> CrateOkIn nets procs members t c.
+Proof. exact check_crates_in_sound. Qed.
+Check C10_linked_checker_sound : forall nets procs g t members roots,
+  check_crates_in nets procs g t members roots = true ->
+  forall c, Reach g roots c -> CrateOkIn nets procs members t c.
+Print Assumptions C10_linked_checker_sound.
+
+Theorem C10_unlisted_net_crate_breaks : forall nets procs g t members roots c,
+  Reach g roots c -> ~ In c members -> class_of t c = Some CNetRuntime -> ~ In (fst c) nets ->
+  check_crates_in nets procs g t members roots = false.
+Proof. exact unlisted_net_crate_breaks. Qed.
+Check C10_unlisted_net_crate_breaks : forall nets procs g t members roots c,
+  Reach g roots c -> ~ In c members -> class_of t c = Some CNetRuntime -> ~ In (fst c) nets ->
+  check_crates_in nets procs g t members roots = false.
+Print Assumptions C10_unlisted_net_crate_breaks.
+
+(* non-vacuity: >= 200 packages are linked, strictly fewer than the lock graph reaches; tokio and open ARE linked;
+   winapi / windows-sys / wasi / hermit-abi / redox_* / criterion are NOT (the lock graph does reach the first three) *)
+Example C10_linked_nontrivial :
+  200 <= List.length (reach_set linked_graph ship_roots) /\
+  List.length (reach_set linked_graph ship_roots) < List.length (reach_set lock_graph ship_roots) /\
+  smem "tokio" (names_of (reach_set linked_graph ship_roots)) = true /\
+  smem "open" (names_of (reach_set linked_graph ship_roots)) = true /\
+  forallb (fun n => negb (smem n (names_of (reach_set linked_graph ship_roots))))
+          ["winapi"; "windows-sys"; "wasi"; "hermit-abi"; "redox_users"; "redox_syscall"; "criterion"] = true /\
+  existsb (fun n => smem n (names_of (reach_set lock_graph ship_roots))) ["winapi"; "windows-sys"; "wasi"] = true.
+Proof. exact linked_nontrivial. Qed.
+
+Example C10_unlisted_net_crate_example :
+  let g := [(("app", "1"), [("winsock", "1")]); (("winsock", "1"), [])] in
+  let t := [(("winsock", "1"), CNetRuntime)] in
+  Reach g [("app", "1")] ("winsock", "1") /\ ~ In ("winsock", "1") [("app", "1")] /\
+  class_of t ("winsock", "1") = Some CNetRuntime /\ ~ In "winsock" net_capable_linked /\
+  check_crates_in net_capable_linked process_linked g t [("app", "1")] [("app", "1")] = false /\
+  check_crates_in ["winsock"] [] g t [("app", "1")] [("app", "1")] = true.
+Proof.
+  cbv zeta. split.
+  - eapply Reach_step; [apply Reach_root; left; reflexivity | left; reflexivity].
+  - split; [intros [H | []]; inversion H |]. split; [reflexivity |]. split.
+    + intros H. cbn in H. repeat (destruct H as [H | H]; [inversion H |]). exact H.
+    + vm_compute. split; reflexivity.
+Qed.
+
+(* ---------------------------------------------------------------------------------------------------------------
+   From the SETTINGS to the writes (deepening): Model/EffectsConfig.v is Config::from_lsp_config's treatment of
+   userDictPath / fileDictPath / statsPath as it is now (absent -> default; not a string -> Err; "" -> default for
+   the two dictionary settings but NOT for statsPath; otherwise resolve-path's try_resolve: absolute / ~ / relative
+   to the working directory), compared in the correspondence with the real function (cases `G`).
+   $HOME, the working directory, config_dir() and data_local_dir() are inputs (e : penv). *)
+
+(* for EVERY configuration the parser can produce, from any settings in any environment: the user dictionary is
+   written as <user>.tmp and renamed onto <user> provided the setting names a file (last component not `..`); a file
+   dictionary as <dir>/<name>.tmp renamed onto <dir>/<name> provided <dir> is not the root; the statistics file is
+   opened in place; all accepted by the monitor under THAT configuration's locations — and for an absent or EMPTY
+   dictionary setting both provisos hold by themselves.  No hypothesis that paths are free of `..` any more. *)
+Theorem C10_config_writes_inside : forall e u f s pc, parse_paths e u f s = Some pc ->
+  let c := mcfg_of pc in
+  (names_file (p_user pc) = true ->
+     cfg_user_plan pc = (m_user c ++ tmp_suffix, m_user c ++ tmp_suffix, m_user c) /\
+     path_allowed c (m_user c ++ tmp_suffix) = true /\ path_allowed c (m_user c) = true /\
+     rename_allowed c (m_user c ++ tmp_suffix) (m_user c) = true) /\
+  (resolve (p_filedir pc) <> [] -> forall fp o s' d, cfg_file_plan pc fp = Some (o, s', d) ->
+     d = m_filedir c ++ slash :: file_dict_name (match fp with Some p => p | None => [] end) /\
+     o = d ++ tmp_suffix /\ s' = o /\
+     path_allowed c o = true /\ path_allowed c d = true /\ rename_allowed c s' d = true) /\
+  path_allowed c (cfg_stats_write pc) = true /\
+  (unset u -> names_file (p_user pc) = true) /\
+  (unset f -> resolve (p_filedir pc) <> []).
+Proof. exact config_writes_inside. Qed.
+Check C10_config_writes_inside : forall e u f s pc, parse_paths e u f s = Some pc ->
+  let c := mcfg_of pc in
+  (names_file (p_user pc) = true ->
+     cfg_user_plan pc = (m_user c ++ tmp_suffix, m_user c ++ tmp_suffix, m_user c) /\
+     path_allowed c (m_user c ++ tmp_suffix) = true /\ path_allowed c (m_user c) = true /\
+     rename_allowed c (m_user c ++ tmp_suffix) (m_user c) = true) /\
+  (resolve (p_filedir pc) <> [] -> forall fp o s' d, cfg_file_plan pc fp = Some (o, s', d) ->
+     d = m_filedir c ++ slash :: file_dict_name (match fp with Some p => p | None => [] end) /\
+     o = d ++ tmp_suffix /\ s' = o /\
+     path_allowed c o = true /\ path_allowed c d = true /\ rename_allowed c s' d = true) /\
+  path_allowed c (cfg_stats_write pc) = true /\
+  (unset u -> names_file (p_user pc) = true) /\
+  (unset f -> resolve (p_filedir pc) <> []).
+Print Assumptions C10_config_writes_inside.
+
+(* an absent or EMPTY userDictPath / fileDictPath is the default location (the guard seed c10-4 removes); an empty
+   statsPath is the working directory itself (save_stats then fails with EISDIR: nothing is written) *)
+Theorem C10_config_unset_is_default : forall e u f s pc, parse_paths e u f s = Some pc ->
+  (unset u -> p_user pc = p_user (default_pcfg e)) /\
+  (unset f -> p_filedir pc = p_filedir (default_pcfg e)) /\
+  (s = SAbsent -> p_stats pc = p_stats (default_pcfg e)) /\
+  (s = SString [] -> p_stats pc = comps (e_cwd e)).
+Proof. exact parse_paths_unset. Qed.
+Check C10_config_unset_is_default : forall e u f s pc, parse_paths e u f s = Some pc ->
+  (unset u -> p_user pc = p_user (default_pcfg e)) /\
+  (unset f -> p_filedir pc = p_filedir (default_pcfg e)) /\
+  (s = SAbsent -> p_stats pc = p_stats (default_pcfg e)) /\
+  (s = SString [] -> p_stats pc = comps (e_cwd e)).
+Print Assumptions C10_config_unset_is_default.
+
+(* save_dict on any destination that names a file, `..` inside allowed: <dst>.tmp opened, renamed onto <dst> *)
+Theorem C10_save_plan_file : forall cs, names_file cs = true ->
+  let d := render (resolve cs) in save_plan cs = (d ++ tmp_suffix, d ++ tmp_suffix, d).
+Proof. exact save_plan_file. Qed.
+Check C10_save_plan_file : forall cs, names_file cs = true ->
+  let d := render (resolve cs) in save_plan cs = (d ++ tmp_suffix, d ++ tmp_suffix, d).
+Print Assumptions C10_save_plan_file.
+
+(* the plans under a Config are the plans of EffectsSave (the ones compared with the system calls of every
+   add-to-dictionary command) on the paths that Config holds *)
+Theorem C10_config_plans_are_save_plans : forall pc user filedir fp,
+  (p_user pc = comps user -> cfg_user_plan pc = user_dict_plan user) /\
+  (p_filedir pc = comps filedir -> cfg_file_plan pc fp = file_dict_plan filedir fp).
+Proof. exact config_plans_are_save_plans. Qed.
+Check C10_config_plans_are_save_plans : forall pc user filedir fp,
+  (p_user pc = comps user -> cfg_user_plan pc = user_dict_plan user) /\
+  (p_filedir pc = comps filedir -> cfg_file_plan pc fp = file_dict_plan filedir fp).
+Print Assumptions C10_config_plans_are_save_plans.
+
+(* non-vacuity: what absent / empty / ~ / relative / ~user / non-string settings become, and a full run of the
+   hypotheses of C10_config_writes_inside on a relative userDictPath with `..` and an empty fileDictPath *)
+Example C10_config_examples :
+  let b := fun s : string => bytes_of_string s in
+  let e := mkenv (b "/home/u") (b "/work/proj") (b "/home/u/.config") (b "/home/u/.local/share") in
+  parse_render e SAbsent SAbsent SAbsent =
+    Some (b "/home/u/.config/harper-ls/dictionary.txt", b "/home/u/.local/share/harper-ls/file_dictionaries", b "/home/u/.local/share/harper-ls/stats.txt") /\
+  parse_render e (SString []) (SString []) (SString []) =
+    Some (b "/home/u/.config/harper-ls/dictionary.txt", b "/home/u/.local/share/harper-ls/file_dictionaries", b "/work/proj") /\
+  parse_render e (SString (b "~/d.txt")) (SString (b "~")) (SString (b "~//x/../s.txt")) =
+    Some (b "/home/u/d.txt", b "/home/u", b "/home/u/s.txt") /\
+  parse_render e (SString (b "dicts/mine.txt")) (SString (b "./fd/")) (SString (b "../s.txt")) =
+    Some (b "/work/proj/dicts/mine.txt", b "/work/proj/fd", b "/work/s.txt") /\
+  parse_render e (SString (b "~user/d.txt")) (SString (b "./~/fd")) (SString (b "/abs//st.txt")) =
+    Some (b "/work/proj/~user/d.txt", b "/work/proj/~/fd", b "/abs/st.txt") /\
+  parse_render e SNotString SAbsent SAbsent = None /\ parse_render e SAbsent SAbsent SNotString = None /\
+  (exists pc, parse_paths e (SString (b "../up/./d.txt")) (SString []) SAbsent = Some pc /\
+     names_file (p_user pc) = true /\ resolve (p_filedir pc) <> [] /\
+     cfg_user_plan pc = (b "/work/up/d.txt.tmp", b "/work/up/d.txt.tmp", b "/work/up/d.txt") /\
+     cfg_file_plan pc (Some (b "/work/proj/a.md")) =
+       Some (b "/home/u/.local/share/harper-ls/file_dictionaries/work%proj%a.md%.tmp",
+             b "/home/u/.local/share/harper-ls/file_dictionaries/work%proj%a.md%.tmp",
+             b "/home/u/.local/share/harper-ls/file_dictionaries/work%proj%a.md%")).
+Proof. exact config_examples. Qed.
+
+(* the proviso `names_file` is needed: userDictPath "/a/b/.." (a directory, written down explicitly) makes save_dict
+   create "/a/.tmp", which the monitor rejects *)
+Example C10_config_dir_setting_example :
+  let b := fun s : string => bytes_of_string s in
+  let e := mkenv (b "/home/u") (b "/work/proj") (b "/home/u/.config") (b "/home/u/.local/share") in
+  exists pc, parse_paths e (SString (b "/a/b/..")) SAbsent SAbsent = Some pc /\ names_file (p_user pc) = false /\
+    m_user (mcfg_of pc) = b "/a" /\ cfg_user_plan pc = (b "/a/.tmp", b "/a/.tmp", b "/a") /\
+    path_allowed (mcfg_of pc) (b "/a/.tmp") = false.
+Proof. exact config_dir_setting_example. Qed.
